@@ -54,6 +54,9 @@ def run(ctx):
     ctx.floor("parameter-origin panic sites in the query scope", n, 20)
     query_ranges(ctx)
     default_m_table(ctx, ctx.facts.getters())
+    collect_orbits_shape(ctx, ctx.facts.getters())
+    ctx.clauses.append("storage layout of the operation table: size * (dim + 1) cells, idx a bijection, grow() consistent (T4, expressions evaluated)")
+    storage_layout(ctx, "T4-storage-layout", ctx.facts.getters())
     table_slots(ctx)
     ctx.clauses.append("PartialDSym and SimpleDSym (PartialDSet and SimpleDSet) answer the queries with sibling implementations of the same structure (T4 cross-check)")
     for m_, tr in (("r", "dsets::DSet"), ("m", "dsets::DSet"), ("v", "dsyms::DSym"), ("op", "dsets::DSet")):
@@ -105,6 +108,63 @@ def default_m_table(ctx, g):
                         " (m is symmetric in its two indices)" if want == 0 else "")
     ctx.ob("T4-default-m-table", b.name, "decision table", "ok" if not bad and n else "violation",
            "1 on the diagonal, 0 for adjacent indices in either order, 2 otherwise, None outside the ranges (%d argument triples)" % n if not bad and n else (bad or "nothing evaluated"))
+
+
+def collect_orbits_shape(ctx, g):
+    """collect_orbits walks every (i, i+1)-orbit once, alternating op i and op i+1 from its smallest chamber until it returns; per orbit it
+    records the number of double steps (r), whether the walk met a fixed chamber of either operation (a 'chain': the orbit lies on a
+    mirror) and the orbit number of every chamber met.  Both accumulators start afresh for every orbit and both are pushed for every orbit."""
+    ctx.clauses.append("collect_orbits: per orbit, r = number of double steps and is_chain = some chamber fixed by op i or op i+1, both reset and pushed per orbit (T2/T4)")
+    b = ctx.body("dsyms::collect_orbits")
+    ctx.scan([b])
+    ds = ("param", 1, b.debug.get(1, ""))
+    L = {n: l for l, n in b.debug.items()}
+    need = ("orbit_rs", "orbit_is_chain", "steps", "is_chain", "e")
+    if any(n not in L for n in need):
+        raise AnchorMissing("collect_orbits locals %s" % [n for n in need if n not in L])
+    loops = natural_loops(b)
+    def depth(bb):
+        return sum(1 for h, bl in loops if bb in bl)
+    # steps
+    sd = [(dbb, norm(d, g)) for dbb, d in b.all_defs_origins(L["steps"])]
+    st = ("local", L["steps"], "steps")
+    oks = sorted(depth(dbb) for dbb, d in sd) == [2, 3] and any(d == ("int", 0) for dbb, d in sd) and \
+        any(unov_term(d) == ("binop", "Add", st, ("int", 1)) for dbb, d in sd)
+    ctx.ob("T4-collect-orbits", b.name, "steps", "ok" if oks else "violation",
+           "r counts one per double step, from 0 for every orbit" if oks else "the step counter is not (0 per orbit, +1 per double step): %s" % [(depth(dbb), show(d, 1)[:30]) for dbb, d in sd])
+    # is_chain
+    cd = [(dbb, norm(d, g)) for dbb, d in b.all_defs_origins(L["is_chain"])]
+    ic = ("local", L["is_chain"], "is_chain")
+    resets = [dbb for dbb, d in cd if d == ("int", 0)]
+    ors = [d for dbb, d in cd if d[0] == "binop" and d[1] == "BitOr" and ic in d[2:]]
+    idxs = set()
+    okeq = True
+    for d in ors:
+        eq = [x for x in d[2:] if x != ic][0]
+        if not (eq[0] == "binop" and eq[1] == "Eq"):
+            okeq = False
+            continue
+        calls = [x for x in subterms(eq) if is_call(x, "::op_unchecked") or is_call(x, "DSet::op")]
+        if not calls or strip(calls[0][2][0]) != ds:
+            okeq = False
+        for c in calls:
+            idxs.add(show(unov_term(strip(c[2][1])), 1)[-30:])
+    okc = len(resets) == 1 and depth(resets[0]) == 2 and len(ors) == 2 and okeq
+    ctx.ob("T4-collect-orbits", b.name, "is_chain", "ok" if okc else "violation",
+           "is_chain starts false for every orbit and accumulates a fixed-chamber test after the op i step and after the op i+1 step" if okc else
+           "is_chain is not (false per orbit, |= fixed-chamber test after each of the two steps): resets at loop depth %s, %d accumulating updates" % ([depth(r) for r in resets], len(ors)))
+    # pushes: both, once per orbit, after the walk
+    pr = [bi for bi, t in b.calls("Vec::<T, A>::push") if strip(norm(b.origin(t["args"][0]), g)) == ("local", L["orbit_rs"], "orbit_rs") and strip(norm(b.origin(t["args"][1]), g)) == st]
+    pc = [bi for bi, t in b.calls("Vec::<T, A>::push") if strip(norm(b.origin(t["args"][0]), g)) == ("local", L["orbit_is_chain"], "orbit_is_chain") and strip(norm(b.origin(t["args"][1]), g)) == ic]
+    okp = len(pr) == 1 and len(pc) == 1 and depth(pr[0]) == 2 and depth(pc[0]) == 2 and (b.dominates(pr[0], pc[0]) or b.dominates(pc[0], pr[0]))
+    if okp:
+        # neither push can be skipped once the other is reached
+        first, second = (pr[0], pc[0]) if b.dominates(pr[0], pc[0]) else (pc[0], pr[0])
+        hdr = [h for h, bl in loops if first in bl and depth(h) == 2]
+        okp = all(must_pass_through(b, first, second, h) for h in hdr) if hdr else False
+    ctx.ob("T4-collect-orbits", b.name, "push(steps), push(is_chain)", "ok" if okp else "violation",
+           "every orbit contributes exactly one r and one chain flag, in step" if okp else
+           "orbit_rs and orbit_is_chain are not both pushed exactly once per orbit (pushes of steps: %d, of is_chain: %d): the two tables get out of step" % (len(pr), len(pc)))
 
 
 def query_ranges(ctx):
